@@ -55,5 +55,6 @@ func ValidatePort(portStr string) (string, error) {
 	if host == "" {
 		return ":" + port, nil
 	}
-	return host + ":" + port, nil
+	// JoinHostPort re-adds the brackets around an IPv6 literal host
+	return net.JoinHostPort(host, port), nil
 }
